@@ -4,6 +4,7 @@
 -/
 import MotoModel.Proofs.DiskSector
 import MotoModel.Proofs.DiskHistory
+import MotoModel.Proofs.DiskRuns
 namespace Moto.C10
 open Moto Moto.Disk
 
@@ -133,5 +134,14 @@ theorem create_always_completes (fl : Flavour) (w : Tape.World) (verbose : Bool)
     ∃ img', ImgOk img' ∧ (create fl w verbose archive srcs).status = .ret 0
       ∧ (create fl w verbose archive srcs).writes = [(archive, save fl img')] :=
   always_completes fl w verbose archive _ srcs fresh_img_ok hs
+
+/-- **C10 (never split across sides, never stored twice)**: one file offered to the injector — with
+    all its retries on the following sides — either leaves every catalog slot of every side as it
+    was (it fitted nowhere), or appears in exactly one slot of one side, which held nothing, with
+    its whole content; every other slot of every side is as it was. -/
+theorem file_stored_in_one_place (name ext : Str) (kind flag : Nat) (data : Bytes) (hname : ∀ c ∈ name, c ≠ 0xFF)
+    (st : Inj) (h : ImgOk st.img) :
+    ∃ st', injWriteFile name ext kind flag data 4 st = .ok st' ∧ ImgOk st'.img ∧ OneStep st.img st'.img name ext kind flag data :=
+  injWriteFile_step name ext kind flag data hname 4 st h
 
 end Moto.C10
